@@ -80,8 +80,7 @@ def scenario(seed):
                 cur = list(p)
                 keysets = {frozenset(j.statepoint()) for j in cur}
                 flat = {json.dumps({k: str(v) for k, v in j.statepoint().items()}, sort_keys=True) for j in cur}
-                if len(keysets) > 1 or len(flat) != len(cur):
-                    continue        # heterogeneous / textually colliding schema with the automatic path: known findings F18, skipped
+                colliding = len(keysets) > 1 or len(flat) != len(cur)      # heterogeneous / textually colliding schema with the automatic path
                 sel = cur
                 kw = {}
                 if op == "subset" and len(cur) > 2:
@@ -90,6 +89,10 @@ def scenario(seed):
                     ks = {frozenset(j.statepoint()) for j in sel}
                 try:
                     p.create_linked_view(prefix=view, **kw)
+                except RuntimeError as e:
+                    if colliding:
+                        continue            # refused (repaired defect F18): paths that print alike are not linked over each other
+                    return f"create_linked_view raised {type(e).__name__}: {e} after {hist}", tuple(sig + hist)
                 except Exception as e:
                     return f"create_linked_view raised {type(e).__name__}: {e} after {hist}", tuple(sig + hist)
                 if len(sel) == 0:
@@ -165,5 +168,5 @@ def run(tier="quick", seed=0):
         failures.append({"key": key, "description": desc, "script": ""})
     return {"scope": "6 state point universes (homogeneous, nested, heterogeneous, unicode / dots / spaces, single job) x histories of 2-5 steps over {create view, add / remove / re-key jobs, "
                      "view of a job_ids subset}; after every view: one link per selected job resolving to its directory, no dead directories, equals a from-scratch build, second run is a no-op; "
-                     "automatic-path collisions (F18) skipped; probes for F20 / F21",
+                     "colliding automatic paths must be refused or linked exactly; probes for F20 / F21",
             "evaluations": evals, "distinct_nontrivial": len(distinct), "rule": "a case is one history; distinct by (universe, operation sequence)", "samples": samples, "failures": failures}
